@@ -13,11 +13,11 @@ def run(tier):
     violations = []
     broken = list(po["broken"])
     c = Counter()
-    n = 16 if tier == "quick" else 400
+    n = 16 if tier == "quick" else 120
     blocks = gen.blocks(sd * 29 + 12, n, profiles=("mixed", "mem", "arith")) + rng.sample(gen.mem_pair_corpus(), 6 if tier == "quick" else 40) + rng.sample(gen.rule_corpus(), 6 if tier == "quick" else 40)
     cse = gen.cse_corpus()
     blocks += rng.sample(cse, 10 if tier == "quick" else len(cse))
-    blocks += rng.sample(gen.fold_corpus([1, 3, 4, 255]), 8 if tier == "quick" else 60) + ["PUSH1 0x3 PUSH1 0x4 ADD MLOAD", "PUSH1 0x1 PUSH1 0x3 SUB DUP1 SWAP2"]
+    blocks += rng.sample(gen.fold_corpus([1, 3, 4, 255]), 8 if tier == "quick" else 30) + ["PUSH1 0x3 PUSH1 0x4 ADD MLOAD", "PUSH1 0x1 PUSH1 0x3 SUB DUP1 SWAP2"]
     pool_h = gen.blocks(sd * 31 + 13, 200, profiles=("mixed", "mem", "arith", "stack")) + gen.mem_pair_corpus()[:60] + cse * 3
     samples = []
     for opts in ((["-greedy"], ["-greedy", "-storage", "-size"]) if tier == "quick" else (["-greedy"], ["-greedy", "-storage"], ["-greedy", "-size", "-partition"])):
@@ -29,7 +29,7 @@ def run(tier):
             toks = b.split()
             if len(toks) > 3:
                 tasks.append({"kind": "history", "text": b, "opts": opts, "history": [" ".join(toks[:-1]) + " ISZERO", b + " PUSH1 0x1 ADD"], "fresh": True, "role": "after-twins", "timeout": 120})
-            for k in ((1, 8) if tier == "quick" else (1, 5, 50)):
+            for k in ((1, 8) if tier == "quick" else (1, 5, 30)):
                 tasks.append({"kind": "history", "text": b, "opts": opts, "history": rng.sample(pool_h, k), "fresh": True, "role": "after-%d" % k, "timeout": 120})
         res = pool.run_tasks(tasks, timeout=120)
         ref = {}
@@ -61,7 +61,7 @@ def run(tier):
                             "harness/extract.py: flow-insensitive read/write/reset sets of module globals (an over-approximation written by me)",
                             "the allow-list Frame.allowedGasolOptimization with its stated reasons"],
            "axioms": po["axioms"], "evaluations": c["histories"], "distinct_nontrivial": c["histories"],
-           "rule": "each block is processed in a fresh process and, in other fresh processes, after 1/8 (thorough: 1/5/50) other blocks drawn from a "
+           "rule": "each block is processed in a fresh process and, in other fresh processes, after 1/8 (thorough: 1/5/30) other blocks drawn from a "
                    "pool; specification dictionaries (identifiers included), sub-block lists, emitted block, log ids and statistics rows (without "
                    "times) must be identical; three option sets",
            "samples": samples or [{"n": 0}], "counters": dict(c)}
